@@ -153,7 +153,9 @@ def joinMerge (l : Log) (otherE otherH : List Entry) : Log :=
   let nextIdx' := newItems.foldl (fun idx e => e.next.foldl hsSet idx) l.nextIdx
   let entries' := newItems.foldl omSet l.entries
   let nextsFromNew : List Hash := newItems.foldl (fun acc e => acc ++ e.next) []
-  let merged := findHeads (omMerge l.heads otherH)
+  -- only an entry this log holds can be one of its heads, and as the object it holds
+  let admittedH := otherH.filterMap (fun h => get? entries' h.hash)
+  let merged := findHeads (omMerge l.heads admittedH)
   let mergedHeads := merged.filter (fun e => !nextsFromNew.contains e.hash && !nextIdx'.contains e.hash && has entries' e.hash)
   { l with entries := entries', nextIdx := nextIdx', heads := omFromList mergedHeads }
 
